@@ -315,6 +315,19 @@ pub fn decode_beatree<K: HashKind>(dir: &Path, d: &mut Decoded) {
     let mut ln_used: HashMap<u32, &'static str> = HashMap::new();
     let mut kv: BTreeMap<Key, DecVal> = BTreeMap::new();
     let mut prev_key: Option<Key> = None;
+    if let Ok(dd) = std::env::var("NV_DUMP_BBN") {
+        use std::io::Write;
+        let _ = std::fs::create_dir_all(&dd);
+        let n = std::fs::read_dir(&dd).map(|r| r.count()).unwrap_or(0);
+        if let Ok(mut f) = std::fs::File::create(format!("{dd}/bbn.{n:03}.txt")) {
+            for b in &bbns {
+                let _ = writeln!(f, "# bbn page {} n={} prefix_compressed={} prefix_len={}", b.pn, b.seps.len(), b.prefix_compressed, b.prefix_len);
+                for i in 0..b.seps.len() {
+                    let _ = writeln!(f, "{} {}", hex32(&b.seps[i]), b.ptrs[i]);
+                }
+            }
+        }
+    }
     for (li, (sep, leaf_pn, bpn)) in flat.iter().enumerate() {
         let next_sep = flat.get(li + 1).map(|x| x.0);
         if *leaf_pn == 0 || *leaf_pn >= meta.ln_bump {
@@ -354,7 +367,12 @@ pub fn decode_beatree<K: HashKind>(dir: &Path, d: &mut Decoded) {
             }
             prev_key = Some(key);
             if key < *sep || next_sep.map_or(false, |ns| key >= ns) {
-                issues.push(format!("leaf page {leaf_pn} cell {i}: key outside its separator range"));
+                issues.push(format!(
+                    "leaf page {leaf_pn} cell {i}: key outside its separator range (n={n} key={} sep={} next_sep={})",
+                    hex32(&key),
+                    hex32(sep),
+                    next_sep.map_or("-".to_string(), |k| hex32(&k))
+                ));
             }
             let raw = &p[off..end];
             let val = if !overflow {
@@ -796,4 +814,8 @@ pub fn decode_all<K: HashKind>(dir: &Path, model_items: &BTreeMap<Key, (usize, H
         d.issues.push(format!("{diffs} key/value differences between the decoded image and the model in total"));
     }
     d
+}
+
+fn hex32(k: &[u8; 32]) -> String {
+    k.iter().map(|b| format!("{b:02x}")).collect()
 }
